@@ -38,9 +38,40 @@ def run_args(draw):
     return kw
 
 
+# keyword-shaped identifiers: the lexer decides per position whether such a word is a keyword or a name, using state kept
+# on the lexer object and tables shared by all parser objects; no model is needed here, the isolated reference is the oracle
+KW_EXTRA = ["create table {k}_copy (like {k});", "create table t_copy like {k};", "create table t_copy (like s.{k} including all);",
+            "create table t (id int comment 'a {k}' default 1 not null, {k} int references o ({k}) on delete cascade, primary key (id));"]
+
+
+@st.composite
+def kw_source(draw):
+    from . import c06
+
+    tpls = sorted(c06.SWEEP) + list(range(len(KW_EXTRA)))
+    stmts = []
+    for _ in range(draw(st.integers(1, 3))):
+        t = draw(st.sampled_from(tpls)) if draw(st.booleans()) else draw(st.integers(0, len(KW_EXTRA) - 1))
+        stmts.append([t, c06.kw_form(draw(st.integers(0, 2)), draw(st.sampled_from(gen.GRAMMAR_KEYWORDS))), draw(st.sampled_from([0, 0, 0, 1, 2, 3]))])
+    return {"t": "kw", "stmts": stmts}
+
+
+def kw_text(src):
+    from . import c06
+
+    out = []
+    for t, k, q in src["stmts"]:
+        a, b = c06.QUOTES[q]
+        tpl = KW_EXTRA[t] if isinstance(t, int) else c06.SWEEP[t][0]
+        out.append(tpl.replace("{k}", a + k + b))
+    return "\n".join(out) + "\n"
+
+
 @st.composite
 def ddl_source(draw):
-    k = draw(st.integers(0, 10))
+    k = draw(st.integers(0, 11))
+    if k == 11:
+        return draw(kw_source())
     if k == 10:
         # Hive RegexSerDe scripts: the "input.regex" value travels through parser-object state
         return {"t": "corpus", "item": draw(st.sampled_from([i for i, it in enumerate(universe.corpus()) if "input.regex" in it["ddl"]]))}
@@ -85,6 +116,8 @@ def case_strategy(draw, max_steps):
 def source_text(src):
     if src["t"] == "corpus":
         return universe.corpus()[src["item"]]["ddl"]
+    if src["t"] == "kw":
+        return kw_text(src)
     if src["t"] == "split":
         c = src["c04"]
         stmts = c04.PROP.statements(c, None, with_undefined=False)
@@ -115,7 +148,8 @@ class C14(Prop):
     id = "C14"
     rule = ("case = call history of 2..N steps over 1..3 parser objects: run(output_mode, group_by_type, json_dump) on an existing "
             "object or on a fresh object of the same text; texts = generated scripts (every statement kind, comments, unsupported "
-            "statements, unterminated last statement, trailing SET line), regression-corpus scripts, or the two halves of a table "
+            "statements, unterminated last statement, trailing SET line), regression-corpus scripts, statements with keyword-shaped "
+            "names in 41 positions (any grammar keyword, parsable or not), or the two halves of a table "
             "script and its ALTER/INDEX statements as separate texts; constructor flags normalize_names / silent drawn; invariant "
             "after every step: result == isolated single-parser reference (exceptions: same type and message), every earlier "
             "result still equals its deep copy, cwd listing unchanged; plus cross-interpreter batches under 4 PYTHONHASHSEED "
